@@ -156,5 +156,48 @@ pub fn job_c07(out_dir: &str, tier: &str, seed: u64) {
         let src = json!({"id": rec["id"], "cfg": cfg, "html": String::from_utf8_lossy(&html), "input": html, "cuts": []});
         sh.push(&rec, &src, None, true);
     }
+    // legacy encodings whose trail bytes are in the ASCII range, every single cut (in particular between a lead and a
+    // trail byte), a text handler that changes nothing and element edits: the chunked runs must produce the same bytes
+    let mk = |parts: &[(&str, &[u8])]| -> (Vec<Value>, Vec<u8>, Vec<(usize, usize)>) {
+        let mut items = Vec::new(); let mut html = Vec::new(); let mut ranges = Vec::new();
+        for (k, bytes) in parts {
+            let s0 = html.len(); html.extend_from_slice(bytes); ranges.push((s0, html.len()));
+            let name: Vec<u8> = bytes.iter().cloned().filter(|c| c.is_ascii_alphabetic()).collect();
+            items.push(match *k { "st" => json!({"k":"st","n":name,"attrs":[],"sc":false,"ns":"html","s":s0,"e":html.len()}),
+                                  "et" => json!({"k":"et","n":name,"s":s0,"e":html.len()}),
+                                  _ => json!({"k":"tx","s":s0,"e":html.len()}) });
+        }
+        (items, html, ranges)
+    };
+    let legacy: Vec<(&str, Vec<(&str, &[u8])>)> = vec![
+        ("shift_jis", vec![("st", b"<div>"), ("tx", b"abc\x83\x41xyz"), ("et", b"</div>"), ("st", b"<p>"), ("tx", b"\x93\xfa\x96\x7b"), ("et", b"</p>")]),
+        ("gbk", vec![("st", b"<a>"), ("tx", b"q\xd6\xd0\x81\x40x"), ("et", b"</a>")]),
+        ("big5", vec![("st", b"<b>"), ("tx", b"\xa4\x40\xa4\x41z"), ("et", b"</b>"), ("tx", b"t\xa4\x5c")]),
+        ("euc-kr", vec![("st", b"<i>"), ("tx", b"k\xb0\xa1\xb0\xa2"), ("et", b"</i>")]),
+    ];
+    for (enc, parts) in &legacy {
+        let (items, html, ranges) = mk(parts);
+        // (every element handler registers an end-tag handler, so that the end tags are captured tokens)
+        for (vi, elops) in [json!([{"op":"on_end_tag","a":[[]]}]), json!([{"op":"append","a":["[x]"]},{"op":"on_end_tag","a":[[]]}]),
+                            json!([{"op":"before","a":["[b]"]},{"op":"after","a":["[a]"]},{"op":"on_end_tag","a":[[]]}])].iter().enumerate() {
+            let cfg = json!({"elem": [{"sel": "*", "element": elops, "text": []}], "doc": [{"text": []}], "strict": false, "enc": enc});
+            let tl = driver::run(&cfg, &html, &[], &RunOpts::default());
+            let (toks, endops, res, sink) = tokens(&tl, &ranges, &items);
+            if toks.iter().any(|t| t["item"] == json!(0)) { continue; }
+            let toks: Vec<Value> = toks.into_iter().map(|mut t| { t.as_object_mut().unwrap().remove("k"); t }).collect();
+            let mut obs = vec![json!({"variant":"single","res":res,"sink":sink})];
+            let mut seen = std::collections::HashSet::new();
+            for c in 1..html.len() {
+                let tl2 = driver::run(&cfg, &html, &[c], &RunOpts::default());
+                let res2 = tl2.iter().filter(|e| e["e"] == "ret" && e["res"] != "ok").map(|e| e["res"].as_str().unwrap_or("?").to_string()).next().unwrap_or("ok".to_string());
+                let sink2 = crate::props::stream::sink_bytes(&tl2);
+                if seen.insert((res2.clone(), sink2.clone())) { obs.push(json!({"variant": format!("cut{c}"), "res": res2, "sink": sink2})); }
+            }
+            n += 1;
+            let rec = json!({"id": format!("c07-{n}"), "input": html, "doc": items, "toks": toks, "endops": endops, "obs": obs});
+            let src = json!({"id": rec["id"], "cfg": cfg, "input": html, "cuts": [], "legacy": enc, "variant": vi});
+            sh.push(&rec, &src, None, true);
+        }
+    }
     sh.finish(json!({"rule": "seeded documents (<= 10 items: tags over 12 names incl. voids / svg island / title, self-closing syntax, mis-nesting, ancestor-closing and stray end tags, unclosed elements, comments, text, doctype) x 1-2 element handlers (13 selectors) running random scripts of 1-3 operations (before / after / prepend / append / set_inner_content / replace / remove / remove_and_keep_content / set_attribute / remove_attribute / set_tag_name, both content types, 8 content strings incl. empty) plus an end-tag handler with 0-2 operations, optional text / comment / doctype / document-end scripts; several handlers may edit the same token. Every case is distinct by construction."}));
 }
